@@ -62,9 +62,21 @@ ViLists(ty) == IF ~IsAtt(ty) THEN {} ELSE
 \* misfiled partials: T or T+1 share indices out of 1..N+1, each filed partial made (validly, over A) with ANY share's
 \* key -- the honest lists, every combination of wrong-share / wrong-index partials with cluster keys, and among them
 \* the combinations whose errors cancel (CancelLists: a valid group signature comes out although shares are misfiled)
-MisfiledLists(ty) == UNION {{[k \in 1..Len(Asc(X)) |-> [Honest(Asc(X)[k], ty) EXCEPT !.by = b[Asc(X)[k]]]] : b \in [X -> Shares]}
-                            : X \in {X \in SUBSET (1..(N + 1)) : Cardinality(X) \in {T, T + 1}}}
-CancelLists(ty) == {l \in MisfiledLists(ty) : ~AllOK(l, ty) /\ CanBeValid(l, "A", ty)}
+\* (the shapes <<index set, index |-> signing share>> do not depend on the object type: computed once)
+MisfiledShapes == UNION {{<<X, b>> : b \in [X -> Shares]} : X \in {X \in SUBSET (1..(N + 1)) : Cardinality(X) \in {T, T + 1}}}
+ListOf(sh, ty) == LET a == Asc(sh[1]) IN [k \in 1..Len(a) |-> [Honest(a[k], ty) EXCEPT !.by = sh[2][a[k]]]]
+\* all partials of such a list signed the same message, so AlgValid is: sum lambda_x * b[x]^j = [j = 0] for j < T
+\* (the coefficients are tabulated once per index set); ASSUMEd below to agree with CanBeValid
+CancelShapes == UNION {LET lam == [q \in Primes |-> [x \in X |-> ProdQ(X, x, q)]]
+                           RECURSIVE Sm(_, _, _, _)
+                           Sm(Y, b, j, q) == IF Y = {} THEN 0 ELSE LET x == CHOOSE y \in Y : TRUE IN
+                                             ModQ(ModQ(lam[q][x] * FPow(b[x], j, q), q) + Sm(Y \ {x}, b, j, q), q)
+                       IN {<<X, b>> : b \in {b \in [X -> Shares] : /\ \E x \in X : b[x] # x
+                                                                  /\ \A q \in Primes : \A j \in 0..(T - 1) :
+                                                                       Sm(X, b, j, q) = (IF j = 0 THEN 1 ELSE 0)}}
+                       : X \in {X \in SUBSET (1..(N + 1)) : Cardinality(X) \in {T, T + 1}}}
+MisfiledLists(ty) == {ListOf(sh, ty) : sh \in MisfiledShapes}
+CancelLists(ty) == {ListOf(sh, ty) : sh \in CancelShapes}
 FullLists(ty) == CancelLists(ty) \cup ValidLists(ty) \cup TooFewLists(ty) \cup SingleLists(ty) \cup DoubleLists(ty) \cup DupLists(ty) \cup ViLists(ty)
 \* reduced sets
 MediumLists(ty) == LET b == Base(1..T, ty) IN
